@@ -80,6 +80,9 @@ class HoloPyObject(Serializable):
                 item = getattr(self, var)
                 if isinstance(item, np.ndarray) and item.ndim == 1:
                     item = list(item)
+                elif isinstance(item, tuple):
+                    # yaml has no tuples: they are saved (and reload) as lists
+                    item = list(item)
                 yield var, item
             elif (hasattr(self, var) and defaults.get(var) is not None
                   and defaults.get(var) is not inspect.Parameter.empty):
